@@ -3,7 +3,7 @@ import itertools
 import os
 import random
 
-from . import envctl
+from . import envctl, interpose
 from .envctl import MachineryError
 
 PYV = {'N': None, 's:a': 'a', 'i:1': 1, 'f:1': 1.0}
@@ -206,6 +206,93 @@ def run_ttl(kind, expire, seed=0, tid=1):
     finally:
         _r.random = real_random
         clock.uninstall()
+        envctl.rm(root)
+
+
+class _Holders(interpose.Listener):
+    """Other connections hold the write lock of every database under the root until the n-th failed attempt to get it."""
+
+    def __init__(self, root, fails):
+        import threading
+        self.fails, self.failed, self.holders = fails, 0, []
+        for d, _, files in os.walk(root):
+            if 'cache.db' in files:
+                h = interpose.real_connect(os.path.join(d, 'cache.db'), timeout=0, isolation_level=None, check_same_thread=False)
+                h.execute('BEGIN IMMEDIATE')
+                self.holders.append(h)
+        # whatever the library does while it waits, the lock is given up after a while: the check never hangs
+        self.timer = threading.Timer(5.0, self.release)
+        self.timer.daemon = True
+        self.timer.start()
+
+    def release(self):
+        hs, self.holders = self.holders, []
+        for h in hs:
+            try:
+                h.execute('ROLLBACK')
+                h.close()
+            except Exception:
+                pass
+        if self.timer is not None and hs:
+            self.timer.cancel()
+
+    def sql_after(self, conn, sql, params, rows, error):
+        if error is not None and self.holders and sql.lstrip().upper().startswith('BEGIN'):
+            self.failed += 1
+            if self.failed >= self.fails:
+                self.release()
+
+
+def run_busy(kind, fails, seed=0, tid=1):
+    """The lookup of a memoized call while another client holds the write lock (settings under which a lookup writes:
+    statistics): it waits for the lock and finds the entry - the function is not run again."""
+    import diskcache
+    root = envctl.scratch('memo')
+    calls = [0]
+
+    def target(a, b=2):
+        calls[0] += 1
+        return (a, b, 'r')
+    lst = None
+    interpose.install(None, root)          # the connections made from here on are observed
+    try:
+        if kind == 'cache':
+            c = diskcache.Cache(os.path.join(root, 'c'), statistics=True, timeout=0.01)
+            f = c.memoize(name='t')(target)
+        elif kind == 'fanout':
+            c = diskcache.FanoutCache(os.path.join(root, 'f'), shards=2, statistics=True, timeout=0.01)
+            f = c.memoize(name='t')(target)
+        elif kind == 'index':
+            c = diskcache.Index.fromcache(diskcache.Cache(os.path.join(root, 'i'), statistics=True, timeout=0.01, eviction_policy='none'))
+            f = c.memoize(name='t')(target)
+        elif kind == 'django':
+            from diskcache.djangocache import DjangoCache
+            c = DjangoCache(os.path.join(root, 'd'), {'SHARDS': 2, 'DATABASE_TIMEOUT': 0.01, 'OPTIONS': {'statistics': True}})
+            f = c.memoize(name='t')(target)
+        else:
+            c = diskcache.Cache(os.path.join(root, 's'), statistics=True, timeout=0.01)
+            f = diskcache.memoize_stampede(c, 1000, name='t')(target)
+        r1 = f(1, b=3)
+        lst = _Holders(root, fails)
+        interpose.set_listener(lst, root)
+        try:
+            r2 = f(1, b=3)
+            raised = ''
+        except Exception as exc:
+            r2, raised = None, type(exc).__name__
+        waited = lst.failed
+        lst.release()
+        r3 = f(1, b=3)
+        try:
+            (c.cache if kind == 'index' else c).close()
+        except Exception:
+            pass
+        return {'id': tid, 'kind': kind, 'ev': [{'ev': 'busy', 'fails': fails, 'waited': waited, 'calls': calls[0], 'raised': raised,
+                                                 'rok': 1 if (r1 == (1, 3, 'r') and r2 == r1 and r3 == r1) else 0}]}
+    finally:
+        if lst is not None:
+            lst.release()
+        interpose.set_listener(None)
         envctl.rm(root)
 
 
